@@ -151,12 +151,20 @@ def run(ctx):
            "one 0 per generator beyond the rank bound n = min(rows, nr_gens)" if okt and chain_ok else "the list is no longer padded with nr_gens - min(rows, nr_gens) zeros")
 
 
+LOWS = {"find_pivot": {"rows": (5,), "columns": (5,)},
+        "move_pivot_in_place": {"rows": (0, 5), "columns": (0, 5)},
+        "clear_later_rows_in_place": {"rows": (6,), "columns": (0, 5)},
+        "clear_later_cols_in_place": {"rows": (0, 5), "columns": (6,)}}
+LOW_NAMES = {0: "0", 5: "i", 6: "i + 1"}
+
+
 def elimination_ranges(ctx, g):
     """the pivot search and the row/column steps cover the whole trailing block: a loop whose variable indexes the rows of `mat` ends at
     mat.len(), one whose variable indexes the columns ends at mat[0].len() - not at the minimum of the two (with fewer relators than
     generators the pivot may sit in a column beyond the number of rows)"""
     ctx.clauses.append("pivot search and elimination steps range over all remaining rows and all remaining columns (T4)")
     n = 0
+    n_lo = [0]
     for fn in ("find_pivot", "move_pivot_in_place", "clear_later_rows_in_place", "clear_later_cols_in_place"):
         b = ctx.body(M + fn)
         mat = ("param", 1, b.debug.get(1, ""))
@@ -178,6 +186,20 @@ def elimination_ranges(ctx, g):
                 want_cols = is_call(hi, "::len") and contains(hi, lambda y: y == mat) and hi != rows_t and not contains(hi, lambda y: is_call(y, "Ord::min"))
                 ok = (want_rows if is_row_index else want_cols) and not r[2]
                 key = (fn, "rows" if is_row_index else "columns", show(hi, 1)[:40])
+                # where the loop starts, with the step index (second parameter) set to 5: the trailing block starts at 5; the rows / columns
+                # before it are already clear below / right of the diagonal, so a swap or a row step may also start at 0 - but nowhere else
+                lo = eval_term_env(unov_term(fold_std_ops(strip(expand_single_defs(b, r[0], g)))), {("param", 2, b.debug.get(2, "")): 5})
+                allowed = LOWS[fn]["rows" if is_row_index else "columns"]
+                lkey = (fn, "rows" if is_row_index else "columns", "from", lo)
+                if lkey not in seen:
+                    seen.add(lkey)
+                    n_lo[0] += 1
+                    ctx.ob("T4-elimination-ranges", b.name, "%s from %s" % (key[1], "/".join(LOW_NAMES[a_] for a_ in allowed)), "ok" if lo in allowed else "violation",
+                           "the %s loop starts at the first %s of the trailing block%s" % (key[1], key[1][:-1], " (or at 0)" if 0 in allowed else "") if lo in allowed else
+                           "with the step index at 5 the loop over the %s starts at %s, not at %s: %s" % (
+                               key[1], lo, " or ".join(str(a_) for a_ in allowed),
+                               "part of the two lines is left unswapped, the step is no longer a row/column permutation" if fn == "move_pivot_in_place" else
+                               "entries of the trailing block are skipped (or finished pivots are looked at again)"), b.span_of(bi))
                 if key in seen:
                     continue
                 seen.add(key)
@@ -187,6 +209,7 @@ def elimination_ranges(ctx, g):
                        "the loop over the %s of the matrix ends at %s instead of %s: part of the trailing block is never looked at (a pivot there is missed, torsion is reported as a free factor)" % (
                            key[1], show(hi, 1)[:50], "mat.len()" if is_row_index else "mat[0].len()"), b.span_of(bi))
     ctx.floor("row/column loops of the elimination routines", n, 8)
+    ctx.floor("row/column loop starts of the elimination routines", n_lo[0], 8)
 
 
 def last_pass_decides(ctx, g):
